@@ -5,6 +5,7 @@
 package simrt
 
 import (
+	"runtime"
 	"reflect"
 	"os"
 	"fmt"
@@ -94,6 +95,7 @@ type Task struct {
 
 	// the map (of a shared struct) this task is about to read or write: set while it is parked at
 	// the yield right before the statement (see MapAccess)
+	depthTick uint32
 	pendMap   uintptr
 	pendWrite bool
 	pendSite  string
@@ -386,6 +388,8 @@ func panicClass(r any) string {
 		return "alloc"
 	case strings.Contains(msg, "livelock"):
 		return "livelock"
+	case strings.Contains(msg, "unbounded recursion"):
+		return "unbounded-recursion"
 	}
 	if len(msg) > 60 {
 		msg = msg[:60]
@@ -435,6 +439,10 @@ func Yield(site string) {
 	s.now += time.Microsecond
 	s.Stats.Yields++
 	s.logEvent("y", t, site)
+	t.depthTick++
+	if t.depthTick&127 == 0 {
+		checkDepth()
+	}
 	if s.PauseAt != 0 && s.Step >= s.PauseAt {
 		t.State = Runnable
 		s.park(t)
@@ -472,10 +480,12 @@ func Access(site string, mode byte) {
 	if s == nil || s.cur == nil {
 		return
 	}
-	if mode != 'r' {
+	if mode == 'w' || mode == 'm' {
 		s.Version++
 	}
-	if mode == 'm' && s.Policy.RMWP > 0 && s.Policy.Name != "explicit" {
+	// 'm': inside a read-modify-write window; 'u': a lock has just been released (no state change
+	// of its own - busy-wait detection must not take it for progress)
+	if (mode == 'm' || mode == 'u') && s.Policy.RMWP > 0 && s.Policy.Name != "explicit" {
 		t := s.cur
 		if t.killed || s.Dead {
 			panic(killSentinel{})
@@ -485,6 +495,11 @@ func Access(site string, mode byte) {
 		s.now += time.Microsecond
 		s.Stats.Yields++
 		s.logEvent("y", t, site)
+		if s.PauseAt != 0 && s.Step >= s.PauseAt {
+			t.State = Runnable
+			s.park(t)
+			return
+		}
 		if s.sched.Bool(s.Policy.RMWP) || s.shouldPreempt(t, site, false) {
 			s.RMWPreempts++
 			s.preempt(t)
@@ -492,6 +507,16 @@ func Access(site string, mode byte) {
 		return
 	}
 	Yield(site)
+}
+
+// checkDepth turns runaway recursion into an ordinary, attributable panic long before the Go
+// runtime would end the whole process with "fatal error: stack overflow" (which is what the real
+// teamserver does at 1 GB of stack).
+func checkDepth() {
+	var pcs [3000]uintptr
+	if n := runtime.Callers(0, pcs[:]); n == len(pcs) {
+		panic(fmt.Errorf("unbounded recursion: more than %d stack frames (the Go runtime ends the process with a stack overflow)", len(pcs)))
+	}
 }
 
 // TrackSQL remembers a cursor or transaction a Havoc task obtained. A task that is killed (crash,
